@@ -28,9 +28,13 @@ fn parse(rec: &mut Rec, js: &str, ctx_json: &serde_json::Value) -> Option<Mat> {
   let o = v.as_object()?;
   let mut keys: Vec<&str> = o.keys().map(|k| k.as_str()).collect();
   keys.sort();
-  if keys != ["key", "share", "tag"] {
-    rec.violation("create-share:keys", format!("JSON keys are {:?}, expected exactly key/share/tag", keys), json!({"output": js}));
+  // the three documented members must be there; further members are not excluded by the statement
+  if !["key", "share", "tag"].iter().all(|k| keys.contains(k)) {
+    rec.violation("create-share:keys", format!("JSON keys are {:?}, expected key, share and tag", keys), json!({"output": js}));
     return None;
+  }
+  if keys.len() > 3 {
+    rec.ev("create_share_extra_json_members");
   }
   let get = |k: &str| o[k].as_str().and_then(|s| BASE64_STANDARD.decode(s).ok());
   match (get("key"), get("share"), get("tag")) {
